@@ -12,16 +12,16 @@ from vf.gen import chain
 from vf.ref import gfa as rg
 
 
-def gen_graph(rng, defects=None, n_chrom=None, id_style=None, scaffolds=None, kinds=None, end_style=None, names=None):
+def gen_graph(rng, defects=None, n_chrom=None, id_style=None, scaffolds=None, kinds=None, end_style=None, names=None, singletons=0):
     """chain graph whose chromosome components are named (majority SN vote) by their rank-0 contig"""
     for _ in range(50):
         g = chain.gen_chain_rgfa(rng, n_chrom=n_chrom, id_style=id_style, defects=defects,
-                                 scaffolds=scaffolds, kinds=kinds, end_style=end_style, names=names)
+                                 scaffolds=scaffolds, kinds=kinds, end_style=end_style, names=names, singletons=singletons)
         ok = True
         for c in g.chroms:
             cnt = collections.Counter(g.nodes[n].contig for n in c["nodes"])
             top = cnt.most_common(2)
-            if top[0][0] != c["name"] or (len(top) > 1 and top[1][1] >= top[0][1] - 1):
+            if top[0][0] != c["name"] or (len(top) > 1 and top[1][1] >= top[0][1] - 1 and len(c["nodes"]) > 1):
                 ok = False
         if ok:
             return g
